@@ -22,6 +22,10 @@ TABLE = {
             'Leave-one-out means, import-export identity (idl included), jackknife-variance = naive error squared and bootstrap means are proven for all sample values '
             'for chain lengths 5..10 (14 thorough); bootstrap import restores the observable for concrete full-rank tables under the lstsq contract.',
             'Real-number semantics; scipy.linalg.lstsq replaced by its normal-equation contract; symbolic bootstrap tables limited to 1-2 symbolic entries per row.'),
+    'C20': (True, 'AST-to-SMT translation (ast2smt) of epsilon_tensor / epsilon_tensor_rank4 / Grid_gamma / kn vjp from the current source; z3 over symbolic ints, strings and an uninterpreted K_n',
+            'Permutation-sign value and raise-iff-outside-domain are decided for all index tuples in the box, the accepted Grid tags are shown to be exactly the 16 documented '
+            'strings (symbolic string), the K_n derivative rule holds for every integer order; Dirac tables are checked in exact arithmetic.',
+            'Index box bounded ([-1,5], thorough [-3,8]); K_n uninterpreted with K_{-n}=K_n; re-exported autograd.scipy.special functions outside.'),
 }
 
 NOT_YET = 'check not built yet in this session (work in progress; see DESIGN.md section 4 for the plan)'
